@@ -5,7 +5,7 @@ import DarkluaModel.Rules.RemoveCallMatch
 `ValueInjection` = identifier, value expression, identifier tracker. `process_expression`
 replaces the identifier `NAME` (unless `NAME` is tracked), `_G.NAME` and `_G["NAME"]` (unless
 `_G` is tracked) by the value. `process_prefix_expression` replaces the identifier `NAME` in
-prefix position by `(value)` WITHOUT consulting the tracker (finding F19) — modelled as is.
+prefix position by `(value)` unless `NAME` is tracked (the tracker test is the F19 fix).
 The value expression is a parameter here (the JSON → expression conversion happens when the
 rule is configured; the harness reads the expression off the real rule).
 -/
@@ -14,7 +14,7 @@ open RemoveCallMatch (Scopes isUsed insertId pushScope popScope)
 
 structure St where
   scopes : Scopes := []
-  /-- instrumentation only: defect regions met (`shadowed-prefix` = F19, `global-write`) -/
+  /-- instrumentation only: regions met (`global-write`) -/
   flags : List String := []
 
 def St.flagIf (st : St) (c : Bool) (f : String) : St :=
@@ -38,14 +38,8 @@ def processExpression (ident : String) (value : Expr) (e : Expr) (st : St) : Exp
 /-- `ValueInjection::process_prefix_expression` -/
 def processPrefix (ident : String) (value : Expr) (p : Expr) (st : St) : Expr × St :=
   match p with
-  | .var n => if ident == n then (.paren value, st) else (p, st)
+  | .var n => if ident == n && !isUsed st.scopes ident then (.paren value, st) else (p, st)
   | _ => (p, st)
-
-/-- the prefix hook is about to replace an occurrence that a local shadows (F19) -/
-def prefFlags (ident : String) (p : Expr) (st : St) : St :=
-  match p with
-  | .var n => st.flagIf (ident == n && isUsed st.scopes ident) "shadowed-prefix"
-  | _ => st
 
 /-- the program assigns the injected global (directly or through `_G`) -/
 def targetFlags (ident : String) (e : Expr) (st : St) : St :=
@@ -62,7 +56,7 @@ def stmtNodeFlags (ident : String) (s : Stmt) (st : St) : St :=
 
 def processor (ident : String) (value : Expr) : Processor St where
   expr := processExpression ident value
-  pref := fun p st => processPrefix ident value p (prefFlags ident p st)
+  pref := processPrefix ident value
   target := fun e st => (e, targetFlags ident e st)
   stmtNode := fun s st => (s, stmtNodeFlags ident s st)
   push := fun st => { st with scopes := pushScope st.scopes }
